@@ -280,13 +280,15 @@ def path_uniformity(SA):
                     if s1 is None or s2 is None or len(s1) != len(s2) or not all(x.eq(y) for x, y in zip(s1, s2)):
                         same, why = False, "%s shape differs" % nm
                 extra = [d for d in w.r.path if d not in ref.r.path] + [d for d in ref.r.path if d not in w.r.path]
-                guessed = [d for d in extra if d[0].startswith("unknown test")]
+                # tests the model cannot exploit: on unmodelled values, and quantified ones (any / all over an array: the outcome is
+                # recorded, but no fact about the individual entries follows from it in this domain)
+                guessed = [d for d in extra if d[0].startswith("unknown test") or d[0].startswith("any:") or d[0].startswith("all:")]
                 verdict = same
                 if not same and guessed:
                     # the two paths differ by a test on a value the interpreter does not model (it explored both outcomes
                     # blindly): whether the distinction is harmless cannot be decided here
                     verdict = None
-                    why = "%s; the paths differ by an unmodelled test (%s)" % (why, guessed[0][0][:80])
+                    why = "%s; the paths differ by a test whose outcome the model cannot exploit (%s)" % (why, guessed[0][0][:80])
                 obs.append(req_ob("R-PATHS", "src/bldfm/solver.py::steady_state_transport_solver (footprint=%s analytic=%s %s mode, halo %s)" % (key[0], key[1], key[2], key[3]),
                                   "case distinctions other than clamp / re-centring do not change the result (case %s)" % (gk,), verdict,
                                   detail=None if same else "%s on the path taking %s" % (why, [(d[0][:80], d[1]) for d in extra][:3])))
